@@ -6,37 +6,71 @@ import GdcVerif.Lemmas.Rle
 
   Property theorems only; helper lemmas live in `Lemmas/Rle.lean`.
   The model (`Model/Rle.lean`) is tied to /repo/rle/rle.go by the correspondence run.
+
+  Since the repair that makes `encodeFrame` refuse a frame whose encoding passes 0xFFFFFFFE bytes (the segment
+  offsets of the RLE header are 32-bit; before, `uint32(buffer.Len())` wrapped silently), the 32-bit bound is no
+  longer a hypothesis of the round-trip theorems but a proved property of the encoder: `rle_encode_guard` says
+  when it refuses, and (2)–(4) hold for EVERY stream it returns.
 -/
 namespace Rle
 
-/-- (1) the encoder accepts every such frame, never overruns `tempBuffer[132]` -/
-theorem rle_encode_ok (i : Info) (hi : i.Accepted) (src : Array Byte) (hlen : src.size = i.nativeLen) :
-    ∃ enc, encodeFrame i src = .ok enc := rle_encode_ok' i hi src hlen
+/-- (1) the encoder accepts every such frame of up to 2 GiB − 50 native bytes (the static bound `Fits32` implies
+    the encoding fits), never overruns `tempBuffer[132]` -/
+theorem rle_encode_ok (i : Info) (hi : i.Accepted) (hf : i.Fits32) (src : Array Byte)
+    (hlen : src.size = i.nativeLen) :
+    ∃ enc, encodeFrame i src = .ok enc := rle_encode_ok' i hi hf src hlen
 
-/-- (2) round trip: Decode ∘ Encode returns the source, plus one zero byte iff the native length is odd -/
-theorem rle_roundtrip (i : Info) (hi : i.Accepted) (hf : i.Fits32) (src : Array Byte)
+/-- (1') the size guard characterised: for every accepted description and every source, the encoder returns an
+    error exactly when the encoded frame (64-byte header + padded segments, `EncFits`) would be longer than
+    0xFFFFFFFE bytes; it never panics; and every stream it returns is even and at most 0xFFFFFFFE bytes long,
+    so every segment offset fits its 32-bit field -/
+theorem rle_encode_guard (i : Info) (hi : i.Accepted) (src : Array Byte) (hlen : src.size = i.nativeLen) :
+    (encodeFrame i src = .err ↔ ¬ EncFits i src) ∧ encodeFrame i src ≠ .panic ∧
+    (∀ enc, encodeFrame i src = .ok enc → enc.length ≤ maxEncodedFrameLength ∧ enc.length % 2 = 0) :=
+  rle_encode_guard' i hi src hlen
+
+/-- (2) round trip, for EVERY stream the encoder returns (no size hypothesis): Decode ∘ Encode returns the
+    source, plus one zero byte iff the native length is odd -/
+theorem rle_roundtrip (i : Info) (hi : i.Accepted) (src : Array Byte)
+    (hlen : src.size = i.nativeLen) (enc : List Byte) (he : encodeFrame i src = .ok enc) :
+    decodeFrame i enc = .ok (src ++ (if i.nativeLen % 2 = 1 then #[0] else #[])) :=
+  rle_roundtrip' i hi src hlen enc he
+
+/-- (2') and with the static bound there is such a stream -/
+theorem rle_roundtrip_fits32 (i : Info) (hi : i.Accepted) (hf : i.Fits32) (src : Array Byte)
     (hlen : src.size = i.nativeLen) :
     ∃ enc, encodeFrame i src = .ok enc ∧
-      decodeFrame i enc = .ok (src ++ (if i.nativeLen % 2 = 1 then #[0] else #[])) :=
-  rle_roundtrip' i hi hf src hlen
+      decodeFrame i enc = .ok (src ++ (if i.nativeLen % 2 = 1 then #[0] else #[])) := by
+  obtain ⟨enc, he⟩ := rle_encode_ok' i hi hf src hlen
+  exact ⟨enc, he, rle_roundtrip' i hi src hlen enc he⟩
 
 /-- (3) the stream is well-formed per Annex G: even length, 64-byte header, count = planes,
     offsets[0] = 64, ascending, even, in range, unused offsets zero -/
-theorem rle_stream_wf (i : Info) (hi : i.Accepted) (hf : i.Fits32) (src : Array Byte)
+theorem rle_stream_wf (i : Info) (hi : i.Accepted) (src : Array Byte)
     (hlen : src.size = i.nativeLen) (enc : List Byte) (he : encodeFrame i src = .ok enc) :
-    AnnexG.headerOk enc i.numberOfSegments = true := rle_stream_wf' i hi hf src hlen enc he
+    AnnexG.headerOk enc i.numberOfSegments = true := rle_stream_wf' i hi src hlen enc he
 
 /-- (4) the independent Annex G reader recovers the byte planes of the source from the stream -/
-theorem rle_spec_agrees (i : Info) (hi : i.Accepted) (hf : i.Fits32) (src : Array Byte)
+theorem rle_spec_agrees (i : Info) (hi : i.Accepted) (src : Array Byte)
     (hlen : src.size = i.nativeLen) (enc : List Byte) (he : encodeFrame i src = .ok enc) :
     AnnexG.readPlanes enc i.numberOfSegments i.pixelCount =
       some ((List.range i.numberOfSegments).map
         (AnnexG.planeOf src.toList i.bytesAllocated i.spp i.pixelCount i.planar)) :=
-  rle_spec_agrees' i hi hf src hlen enc he
+  rle_spec_agrees' i hi src hlen enc he
 
 /-- non-vacuity: a concrete frame meets every hypothesis and the conclusion computes -/
 example : let i : Info := { width := 3, height := 1, bitsAllocated := 16, spp := 1, planar := 0 }
-    i.Accepted ∧ i.Fits32 ∧ (#[1, 0, 1, 0, 1, 7] : Array Byte).size = i.nativeLen := by
-  decide
+    i.Accepted ∧ i.Fits32 ∧ (#[1, 0, 1, 0, 1, 7] : Array Byte).size = i.nativeLen ∧
+    EncFits i #[1, 0, 1, 0, 1, 7] ∧ ∃ enc, encodeFrame i #[1, 0, 1, 0, 1, 7] = .ok enc := by
+  refine ⟨by decide, by decide, by decide, ?_, ?_⟩
+  · exact fits32_encFits _ (Info.Accepted.geo (by decide)) (by decide) _
+  · exact rle_encode_ok _ (by decide) (by decide) _ (by decide)
+
+/-- non-vacuity of the refusing branch: the static worst case 64 + planes·(2·pixels + 1) of the hunters' witness
+    geometry (19700 x 19700, 32-bit, 3 samples: 12 planes of 388 090 000 bytes, literal-coded segments of
+    391 121 954 bytes each) is beyond the 32-bit range, while a 2 GiB − 50 byte frame is always inside: `Fits32`
+    is not vacuous at the top, and descriptions outside it exist inside the property's quantifier -/
+example : let big : Info := { width := 19700, height := 19700, bitsAllocated := 32, spp := 3, planar := 0 }
+    big.Accepted ∧ ¬ big.Fits32 ∧ 64 + 12 * 391121954 > maxEncodedFrameLength := by decide
 
 end Rle
